@@ -6,6 +6,7 @@ package rpc
 
 import (
 	"context"
+	"bytes"
 	"encoding/json"
 	"fmt"
 	"strconv"
@@ -16,6 +17,7 @@ import (
 
 	abci "github.com/tendermint/tendermint/abci/types"
 	"github.com/tendermint/tendermint/crypto"
+	"github.com/tendermint/tendermint/crypto/ed25519"
 	"github.com/tendermint/tendermint/crypto/merkle"
 	tmbytes "github.com/tendermint/tendermint/libs/bytes"
 	"github.com/tendermint/tendermint/libs/log"
@@ -161,6 +163,7 @@ type c20SeqN struct {
 	dup  func()
 	swap func()
 	add  func()
+	forge func()
 }
 
 type c20Rec map[string]interface{}
@@ -542,8 +545,26 @@ func (ch *c20Chain) lbN(x *c20LB) c20Rec {
 				c := *x.vals[len(x.vals)-1]
 				x.vals = append(x.vals, &c)
 			},
-			swap: func() { x.vals[0], x.vals[1] = x.vals[1], x.vals[0] }},
+			swap: func() { x.vals[0], x.vals[1] = x.vals[1], x.vals[0] },
+			// the attacker's own validator set (TMLightRPC!ForgedVals)
+			forge: func() { x.vals = []*types.Validator{types.NewValidator(ch.attacker().PrivKey.PubKey(), 10)} }},
 	}
+}
+
+// the attacker's key: validator "vz" / "pkz"
+func (ch *c20Chain) attacker() types.MockPV {
+	pv := types.NewMockPVWithParams(ed25519.GenPrivKeyFromSecret([]byte("c20/attacker")), false, false)
+	pk := pv.PrivKey.PubKey()
+	ch.nm.regID("addr", "vz", pk.Address())
+	ch.nm.regID("pk", "pkz", pk.Bytes())
+	ch.nm.pubkeys["pkz"] = pk
+	return pv
+}
+
+func (ch *c20Chain) isForged(x *c20LB) bool {
+	return len(x.vals) == 1 && x.vals[0].PubKey != nil && x.vals[0].PubKey.Equals(ch.attacker().PrivKey.PubKey()) &&
+		x.vals[0].VotingPower == 10 && x.vals[0].ProposerPriority == 0 &&
+		bytes.Equal(x.vals[0].Address, x.vals[0].PubKey.Address())
 }
 
 // ---- path resolution and edits
@@ -612,6 +633,8 @@ func (nm *c20Names) applyHow(node interface{}, how string, other interface{}, ha
 			f = n.swap
 		case "addh", "adds":
 			f = n.add
+		case "forge":
+			f = n.forge
 		}
 		if f == nil {
 			return fmt.Errorf("how %q not applicable to sequence type %s", how, n.ty)
@@ -736,6 +759,26 @@ func (ch *c20Chain) cohereLB(x *c20LB, path []string) {
 	}
 	if c20Under(path, "vals") || c20Under(path, "header") {
 		x.commit.BlockID.Hash = ch.regHeaderHash(&x.hdr)
+	}
+	// a forged validator set: the liar signs the commit himself (TMLightRPC!Cohere, ForgedSigTerm)
+	if ch.isForged(x) && len(x.commit.Signatures) > 0 {
+		pv := ch.attacker()
+		ts := x.commit.Signatures[0].Timestamp
+		vote := &types.Vote{Type: tmproto.PrecommitType, Height: x.commit.Height, Round: x.commit.Round, BlockID: x.commit.BlockID,
+			Timestamp: ts, ValidatorAddress: x.vals[0].Address, ValidatorIndex: 0}
+		pb := vote.ToProto()
+		sig := []byte("unsignable")
+		func() {
+			defer func() { _ = recover() }() // a malformed block id cannot be signed either
+			if err := pv.SignVote(x.hdr.ChainID, pb); err == nil {
+				sig = pb.Signature
+			}
+		}()
+		term := "SGZ(" + c20BidTerm(ch.nm.absBid(x.commit.BlockID)) + "," + c20I2S(int64(x.commit.Round)) + "," +
+			c20I2S(x.commit.Height) + "," + c20I2S(ch.nm.absTime(ts)) + ")"
+		ch.nm.regID("sig", term, sig)
+		x.commit.Signatures = []types.CommitSig{{BlockIDFlag: types.BlockIDFlagCommit, ValidatorAddress: x.vals[0].Address,
+			Timestamp: ts, Signature: sig}}
 	}
 }
 
